@@ -904,7 +904,19 @@ func H_C06_datafile() {
 	data := &vMemStream{} // no chunk arrives in this run: every report describes what was found on disk
 	_ = writeControlEnd(control)
 	conn := &vScriptConn{streams: []Stream{control, data}}
+	metaAtCreate := false
+	if !vSymbolic() && have < size {
+		// native replay of the kill-window obligation (the engine judges it on the effect log): when the data
+		// file is about to be re-created at full size, the metadata of the lost file must be gone already
+		vBeforeCreate = func(path string) {
+			if _, err := os.Stat(sc.Path); err == nil {
+				metaAtCreate = true
+			}
+		}
+		defer func() { vBeforeCreate = func(string) {} }()
+	}
 	_, err := RecvManifestMultiStream(vContext("ctx", false), conn, out, Options{NoRootDir: true, Resume: true, ResumeVerify: "last"})
+	vAssert(!metaAtCreate, "metadata of a lost data file is removed before the data file is re-created at full size")
 	rep := &vMemStream{buf: control.out}
 	for {
 		typ, msg, rerr := readControlMessage(rep)
